@@ -7,8 +7,9 @@ V = os.path.dirname(os.path.dirname(os.path.abspath(__file__)))
 subprocess.run(["python3", os.path.join(V, "tools", "gen_c05_tables.py")], check=True, stdout=subprocess.DEVNULL)
 names = json.load(open(os.path.join(V, "build/gen/C08/functions.json")))
 L = int(sys.argv[1]) if len(sys.argv) > 1 else 1
+ONLY = [int(x) for x in sys.argv[2].split(",")] if len(sys.argv) > 2 else None
 solver = "cvc5 --incremental --lang=smt2 --tlimit-per=60000"
-runs = [dict(entry="VerifBuiltin", params={"FN": i, "L": L}, fuel=3000000, preempt=2, timeout_s=150) for i in range(len(names))]
+runs = [dict(entry="VerifBuiltin", params={"FN": i, "L": L}, fuel=3000000, preempt=2, timeout_s=int(os.environ.get("DISC_TIMEOUT", "150"))) for i in (ONLY if ONLY is not None else range(len(names)))]
 rf = os.path.join(V, "build/gen/C08/disc.runs"); json.dump(runs, open(rf, "w"))
 out = os.path.join(V, "build/gen/C08/disc.out.json")
 os.makedirs(os.path.join(V, "build", "mod"), exist_ok=True)
